@@ -1,4 +1,416 @@
-import LdarModel.Model.Tree
+import LdarModel.Lemmas.Tree
+/-
+C18 — parameter intake: user values override defaults, everything else stays default.
+
+Model: `Model/Tree.lean` (`retainUpdate`, `checkTypes`, `removePlaceholders`, `validateNames`,
+`installProgram`, `parse`, `intake`).  Leaf = any non-dictionary value (lists are leaves, as in
+`retain_update`).  `touched u p` = the path `p` lies on or below a leaf path of the update `u`.
+Every statement is over all trees / paths / key sets / file lists; hypotheses named `wf` say that
+dictionary keys are distinct (always true of Python dictionaries).
+-/
 namespace LdarModel.Tree
-theorem stub_c18 : True := trivial
+
+/-- the property at full strength over the model:
+(1) an accepted file uses, at every depth, only keys the defaults have at the same place (only a
+    top-level omit key of the level is exempt);
+(2) the sections produced by the intake do not depend on the order of the parameter files. -/
+def C18_statement : Prop :=
+  (∀ (om : List String) (d t : J) (p : Path) (tk : KV) (k : String),
+      checkTypes om d t = .ok () → get? p t = some (.obj tk) → k ∈ tk.keys →
+      (∀ k0, (p ++ [k]).head? = some k0 → om.contains k0 = false) →
+      ∃ dk, get? p d = some (.obj dk) ∧ k ∈ dk.keys)
+  ∧
+  (∀ (defs sim0 : KV) (fs gs : List KV) (slot : String), fs.Perm gs →
+      (parse defs sim0 fs).toOption.map (·.lookup slot)
+        = (parse defs sim0 gs).toOption.map (·.lookup slot))
+
+/-! ### merge: defaults with exactly the user's leaves replaced -/
+
+/-- `merge_frame`: after `retain_update(defaults, user)`
+  (1) every leaf path of the user file holds the user's value,
+  (2) every leaf path of the defaults that is not on or below a user leaf path holds the default,
+  (3) nothing appears where neither had anything (when the user's keys are known),
+  (4) every dictionary of the defaults off the user's leaf paths is still a dictionary, with the
+      default's key list when the user's keys are known — sections are never replaced wholesale. -/
+theorem merge_frame {d r : J} {ukvs : KV} (hwf : ukvs.wf = true)
+    (h : retainUpdate d (.obj ukvs) = .ok r) :
+    (∀ p v, get? p (.obj ukvs) = some v → v.isObj = false → get? p r = some v) ∧
+    (∀ p v, get? p d = some v → v.isObj = false → touched (.obj ukvs) p = false →
+        get? p r = some v) ∧
+    (∀ p, get? p d = none → touched (.obj ukvs) p = false → get? p r = none) ∧
+    (∀ p dk, get? p d = some (.obj dk) → touched (.obj ukvs) p = false →
+        ∃ rk, get? p r = some (.obj rk) ∧ (Known d (.obj ukvs) → rk.keys = dk.keys)) := by
+  simp only [retainUpdate] at h
+  refine ⟨?_, ?_, ?_, ?_⟩
+  · intro p v hg hv
+    rw [ru_touched p ukvs d r hwf h (touched_of_leaf_at p _ v hg hv), hg]
+  · intro p v hg hv ht
+    exact (ru_untouched p ukvs d r hwf h ht).2.1 v hg hv
+  · intro p hg ht
+    exact (ru_untouched p ukvs d r hwf h ht).1 hg
+  · intro p dk hg ht
+    obtain ⟨rk, hr, hkeys⟩ := (ru_untouched p ukvs d r hwf h ht).2.2 dk hg
+    refine ⟨rk, hr, fun hk => hkeys ?_⟩
+    intro uk' hu k hm
+    obtain ⟨dk2, hd2, hmem⟩ := hk p uk' k hu hm
+    rw [hg] at hd2
+    cases hd2
+    exact hmem
+
+/-- non-vacuity: a nested update of one leaf -/
+example :
+    retainUpdate (.obj (.cons "a" (.int 1) (.cons "s" (.obj (.cons "x" (.int 2) (.cons "y" (.int 3) .nil))) .nil)))
+        (.obj (.cons "s" (.obj (.cons "y" (.int 9) .nil)) .nil))
+      = .ok (.obj (.cons "a" (.int 1) (.cons "s" (.obj (.cons "x" (.int 2) (.cons "y" (.int 9) .nil))) .nil))) := rfl
+
+/-- a file accepted by `check_types` (no omit keys) never crashes `retain_update` -/
+theorem merge_total {d : J} {ukvs : KV} (hwf : ukvs.wf = true)
+    (hc : checkTypes [] d (.obj ukvs) = .ok ()) : ∃ r, retainUpdate d (.obj ukvs) = .ok r := by
+  obtain ⟨dk, hd, _⟩ := ct_obj hc
+  subst hd
+  simp only [retainUpdate]
+  exact ru_total ukvs _ hwf (Or.inr rfl) (known_of_check hc).1
+
+/-- `merge_comm`: two updates with disjoint leaf paths (keys known, leaves on leaves) merged in
+either order give the same tree — the merged result does not depend on the file order -/
+theorem merge_comm {u1 u2 : KV} {d r1 r12 r2 r21 : J}
+    (hw1 : u1.wf = true) (hw2 : u2.wf = true) (hnd : NodupAt d)
+    (hk1 : Known d (.obj u1)) (hk2 : Known d (.obj u2))
+    (hl1 : LeafOnLeaf d (.obj u1)) (hl2 : LeafOnLeaf d (.obj u2))
+    (hdis : DisjointLeaves (.obj u1) (.obj u2))
+    (e1 : retainUpdate d (.obj u1) = .ok r1) (e12 : retainUpdate r1 (.obj u2) = .ok r12)
+    (e2 : retainUpdate d (.obj u2) = .ok r2) (e21 : retainUpdate r2 (.obj u1) = .ok r21) :
+    r12 = r21 := by
+  simp only [retainUpdate] at e1 e12 e2 e21
+  exact ru_comm hw1 hw2 hnd hk1 hk2 hl1 hl2 hdis e1 e12 e2 e21
+
+/-- the same for two files that both pass `check_types`: both orders succeed and agree -/
+theorem merge_comm_checked {u1 u2 : KV} {d : J}
+    (hwd : d.wf = true) (hw1 : u1.wf = true) (hw2 : u2.wf = true)
+    (hc1 : checkTypes [] d (.obj u1) = .ok ()) (hc2 : checkTypes [] d (.obj u2) = .ok ())
+    (hdis : DisjointLeaves (.obj u1) (.obj u2)) :
+    ∃ r1 r2 r, retainUpdate d (.obj u1) = .ok r1 ∧ retainUpdate r1 (.obj u2) = .ok r ∧
+      retainUpdate d (.obj u2) = .ok r2 ∧ retainUpdate r2 (.obj u1) = .ok r := by
+  obtain ⟨hk1, hl1⟩ := known_of_check hc1
+  obtain ⟨hk2, hl2⟩ := known_of_check hc2
+  obtain ⟨r1, e1⟩ := merge_total hw1 hc1
+  obtain ⟨r2, e2⟩ := merge_total hw2 hc2
+  simp only [retainUpdate] at e1 e2
+  obtain ⟨dk, hd, _⟩ := ct_obj hc1
+  subst hd
+  obtain ⟨rk1, hr1⟩ := ru_obj u1 dk r1 e1
+  obtain ⟨rk2, hr2⟩ := ru_obj u2 dk r2 e2
+  subst hr1; subst hr2
+  obtain ⟨r12, e12⟩ := ru_total u2 (.obj rk1) hw2 (Or.inr rfl) (known_after hw1 e1 hk1 hl1 hk2)
+  obtain ⟨r21, e21⟩ := ru_total u1 (.obj rk2) hw1 (Or.inr rfl) (known_after hw2 e2 hk2 hl2 hk1)
+  have := ru_comm hw1 hw2 (wf_nodupAt hwd) hk1 hk2 hl1 hl2 hdis e1 e12 e2 e21
+  subst this
+  exact ⟨_, _, r12, by simpa [retainUpdate] using e1, by simpa [retainUpdate] using e12,
+    by simpa [retainUpdate] using e2, by simpa [retainUpdate] using e21⟩
+
+/-- non-vacuity of the hypotheses of `merge_comm_checked` -/
+example : ∃ r1 r2 r,
+    retainUpdate (.obj (.cons "a" (.int 1) (.cons "b" (.float 5 (-1)) .nil))) (.obj (.cons "a" (.int 7) .nil)) = .ok r1 ∧
+    retainUpdate r1 (.obj (.cons "b" (.int 2) .nil)) = .ok r ∧
+    retainUpdate (.obj (.cons "a" (.int 1) (.cons "b" (.float 5 (-1)) .nil))) (.obj (.cons "b" (.int 2) .nil)) = .ok r2 ∧
+    retainUpdate r2 (.obj (.cons "a" (.int 7) .nil)) = .ok r :=
+  merge_comm_checked (by decide) (by decide) (by decide) rfl rfl
+    (disjoint_of_keys (by decide))
+
+/-! ### check: acceptance is exactly "every key known and every value typed" -/
+
+/-- `accepts → known ∧ typed`: below an omit-free key path, whatever an accepted file holds has a
+counterpart in the defaults at the same path, passes the node test `typeOk` against it, and — if it
+is a dictionary — uses only keys that counterpart has; list elements are checked against the first
+element of the default list -/
+theorem accepts_known_typed {om : List String} {d t : J} (h : checkTypes om d t = .ok ())
+    (p : Path) (hp : omitFree om p) (tv : J) (hg : get? p t = some tv) :
+    ∃ dv, get? p d = some dv ∧ typeOk dv tv = true ∧
+      (∀ tk k, tv = .obj tk → k ∈ tk.keys → om.contains k = false →
+          ∃ dk, dv = .obj dk ∧ k ∈ dk.keys) ∧
+      (∀ tl d0 ds x, tv = .list tl → dv = .list (.cons d0 ds) → x ∈ tl.toList →
+          checkTypes om d0 x = .ok ()) := by
+  obtain ⟨dv, hdv, hc⟩ := ct_get p d t tv h hp hg
+  refine ⟨dv, hdv, ct_typeOk hc, ?_, ?_⟩
+  · intro tk k htv hm ho
+    subst htv
+    obtain ⟨dk, hd, hct⟩ := ct_obj hc
+    obtain ⟨x, hx⟩ := KV.lookup_of_mem_keys k tk hm
+    obtain ⟨dv2, hdv2, _⟩ := ct_lookup tk k x hct hx ho
+    exact ⟨dk, hd, KV.mem_keys_of_lookup hdv2⟩
+  · intro tl d0 ds x htv hdl hm
+    subst htv; subst hdl
+    have hl : ctList om d0 tl = .ok () := by
+      simp only [checkTypes] at hc
+      split at hc
+      · exact hc
+      · cases hc
+    exact ct_list_mem tl x hl hm
+
+/-- `rejects_unknown_key`: a key (not an omit key) the defaults lack at the same omit-free path
+makes `check_types` reject, at any depth -/
+theorem rejects_unknown_key {om : List String} {d t : J} {p : Path} {tk : KV} {k : String}
+    (hp : omitFree om p) (hg : get? p t = some (.obj tk)) (hm : k ∈ tk.keys)
+    (ho : om.contains k = false)
+    (hunknown : ∀ dk, get? p d = some (.obj dk) → k ∉ dk.keys) :
+    ∃ e, checkTypes om d t = .error e := by
+  cases hc : checkTypes om d t with
+  | error e => exact ⟨e, rfl⟩
+  | ok u =>
+    obtain ⟨dv, hdv, _, hkn, _⟩ := accepts_known_typed hc p hp _ hg
+    obtain ⟨dk, hd, hmem⟩ := hkn tk k rfl hm ho
+    subst hd
+    exact absurd hmem (hunknown dk hdv)
+
+/-- `rejects_wrong_type`: a value that fails the node test against the default at the same
+omit-free path (or has no default there) makes `check_types` reject, at any depth -/
+theorem rejects_wrong_type {om : List String} {d t : J} {p : Path} {tv : J}
+    (hp : omitFree om p) (hg : get? p t = some tv)
+    (hwrong : ∀ dv, get? p d = some dv → typeOk dv tv = false) :
+    ∃ e, checkTypes om d t = .error e := by
+  cases hc : checkTypes om d t with
+  | error e => exact ⟨e, rfl⟩
+  | ok u =>
+    obtain ⟨dv, hdv, hty, _, _⟩ := accepts_known_typed hc p hp _ hg
+    rw [hwrong dv hdv] at hty
+    cases hty
+
+/-- the node test is the code's relation: equal types, int for float, typed placeholders -/
+theorem typeOk_table :
+    typeOk (.int 1) (.bool true) = false ∧ typeOk (.bool true) (.int 1) = false ∧
+    typeOk (.float 1 0) (.int 3) = true ∧ typeOk (.int 1) (.float 3 0) = false ∧
+    typeOk (.str phInt) (.int 3) = true ∧ typeOk (.str phInt) (.float 3 0) = false ∧
+    typeOk (.str phInt) (.str "x") = false ∧ typeOk (.str phInt) (.str phInt) = true ∧
+    typeOk (.str phFloat) (.int 3) = true ∧ typeOk (.str phFloat) (.float 3 0) = true ∧
+    typeOk (.str phFloat) (.str "x") = false ∧ typeOk (.str phStr) (.str "x") = true ∧
+    typeOk (.str phStr) (.int 1) = false ∧ typeOk (.str "a") (.null) = false ∧
+    typeOk (.list .nil) (.obj .nil) = false ∧ typeOk (.obj .nil) (.list .nil) = false := by
+  decide
+
+/-- `C18_partial`: clause (1) of the statement with the code's actual exemption — no key of the
+path (and not the key itself) is an omit key -/
+theorem C18_partial (om : List String) (d t : J) (p : Path) (tk : KV) (k : String)
+    (h : checkTypes om d t = .ok ()) (hg : get? p t = some (.obj tk)) (hm : k ∈ tk.keys)
+    (hp : omitFree om (p ++ [k])) :
+    ∃ dk, get? p d = some (.obj dk) ∧ k ∈ dk.keys := by
+  have hp' : omitFree om p := fun k' hk' => hp k' (by simp [hk'])
+  obtain ⟨dv, hdv, _, hkn, _⟩ := accepts_known_typed h p hp' _ hg
+  obtain ⟨dk, hd, hmem⟩ := hkn tk k rfl hm (hp k (by simp))
+  subst hd
+  exact ⟨dk, hdv, hmem⟩
+
+/-! ### the full-strength statement is false of the code as it stands (recorded findings) -/
+
+/-- omit keys are exempt at every depth: `economics: {methods: 3}` in a program file is accepted
+although `economics` has no key `methods` (finding F18a) -/
+theorem C18_counterexample_omit :
+    ¬ (∀ (om : List String) (d t : J) (p : Path) (tk : KV) (k : String),
+      checkTypes om d t = .ok () → get? p t = some (.obj tk) → k ∈ tk.keys →
+      (∀ k0, (p ++ [k]).head? = some k0 → om.contains k0 = false) →
+      ∃ dk, get? p d = some (.obj dk) ∧ k ∈ dk.keys) := by
+  intro h
+  have := h ["methods"]
+    (.obj (.cons "economics" (.obj (.cons "price" (.float 3 0) .nil)) .nil))
+    (.obj (.cons "economics" (.obj (.cons "methods" (.int 3) .nil)) .nil))
+    ["economics"] (.cons "methods" (.int 3) .nil) "methods" rfl rfl (by simp [KV.keys])
+    (by intro k0 hk0; simp at hk0; subst hk0; decide)
+  obtain ⟨dk, hd, hm⟩ := this
+  have hd' : dk = .cons "price" (.float 3 0) .nil := by
+    have : get? ["economics"] (.obj (.cons "economics" (.obj (.cons "price" (.float 3 0) .nil)) .nil))
+        = some (.obj (.cons "price" (.float 3 0) .nil)) := rfl
+    rw [this] at hd
+    cases hd; rfl
+  subst hd'
+  simp [KV.keys] at hm
+
+private def cxDefs : KV :=
+  .cons "virtual_world_default.yml"
+      (.obj (.cons "parameter_level" (.str "virtual_world") (.cons "a" (.int 1) (.cons "b" (.int 2) .nil))))
+  (.cons "p_default.yml"
+      (.obj (.cons "parameter_level" (.str "programs") (.cons "program_name" (.str "d")
+        (.cons "method_labels" (.list .nil) .nil))))
+  (.cons "outputs_default.yml" (.obj (.cons "parameter_level" (.str "outputs") .nil)) .nil))
+
+private def cxA : KV := .cons "parameter_level" (.str "virtual_world") (.cons "a" (.int 5) .nil)
+private def cxB : KV := .cons "parameter_level" (.str "virtual_world") (.cons "b" (.int 7) .nil)
+private def cxP : KV := .cons "parameter_level" (.str "programs") (.cons "program_name" (.str "P") .nil)
+
+/-- two virtual-world files: the later one replaces the section built from the earlier one, so
+the result depends on the file order (finding F18b) -/
+theorem C18_counterexample_order :
+    ¬ (∀ (defs sim0 : KV) (fs gs : List KV) (slot : String), fs.Perm gs →
+      (parse defs sim0 fs).toOption.map (·.lookup slot)
+        = (parse defs sim0 gs).toOption.map (·.lookup slot)) := by
+  intro h
+  have hp : [cxA, cxB, cxP].Perm [cxB, cxA, cxP] := List.Perm.swap _ _ _
+  have := h cxDefs .nil _ _ "virtual_world" hp
+  have h1 : (parse cxDefs .nil [cxA, cxB, cxP]).toOption.map (·.lookup "virtual_world")
+      = some (some (.obj (.cons "parameter_level" (.str "virtual_world")
+          (.cons "a" (.int 1) (.cons "b" (.int 7) .nil))))) := rfl
+  have h2 : (parse cxDefs .nil [cxB, cxA, cxP]).toOption.map (·.lookup "virtual_world")
+      = some (some (.obj (.cons "parameter_level" (.str "virtual_world")
+          (.cons "a" (.int 5) (.cons "b" (.int 2) .nil))))) := rfl
+  rw [h1, h2] at this
+  simp at this
+
+theorem C18_counterexample : ¬ C18_statement := fun h => C18_counterexample_omit h.1
+
+/-! ### methods installed, placeholders removed, reserved names rejected -/
+
+/-- `methods_installed`: when a program is installed, every label of its `method_labels` is present
+under `methods`, holding `retainUpdate (defaults of the method's own deployment type) userMethod`,
+the user method having passed `check_types` against those defaults -/
+theorem methods_installed {defs pool pk : KV} {r : J} {ls : JL}
+    (h : installProgram defs pool (.obj pk) = .ok r)
+    (hl : pk.lookup "method_labels" = some (.list ls)) :
+    ∃ ms, get? ["methods"] r = some (.obj ms) ∧
+      ∀ l, l ∈ ls.toList → ∃ key m mk df d rm,
+        keyOf l = some key ∧ pool.lookup key = some m ∧ m = .obj mk ∧
+        methodDefFile mk = .ok df ∧ loadDef defs df = .ok d ∧
+        checkTypes methodOmit d m = .ok () ∧ retainUpdate d m = .ok rm ∧
+        ms.lookup key = some rm := by
+  simp only [installProgram, hl, iterLabels] at h
+  cases hil : installLabels pool ls.toList .nil with
+  | error e => simp [hil] at h
+  | ok ms0 =>
+    simp only [hil] at h
+    cases him : installMethods defs ms0 with
+    | error e => simp [him] at h
+    | ok ms =>
+      simp only [him] at h
+      cases h
+      refine ⟨ms, by simp [get?, KV.lookup_setKey_same], ?_⟩
+      intro l hmem
+      obtain ⟨i1, _, i3⟩ := installLabels_inv pool ls.toList .nil ms0 hil
+        (by intro key m hk; simp [KV.lookup] at hk)
+      obtain ⟨key, hko, hkm⟩ := i3 l hmem
+      obtain ⟨m, hm⟩ := KV.lookup_of_mem_keys key ms0 hkm
+      obtain ⟨rm, hrm, hlk⟩ := installMethods_lookup defs ms0 ms key m him hm
+      have hpool := i1 key m hm
+      cases m with
+      | obj mk =>
+        simp only [installMethod] at hrm
+        cases hdf : methodDefFile mk with
+        | error e => simp [hdf] at hrm
+        | ok df =>
+          simp only [hdf] at hrm
+          cases hld : loadDef defs df with
+          | error e => simp [hld] at hrm
+          | ok d =>
+            simp only [hld] at hrm
+            cases hmn : mk.lookup "method_name" with
+            | none => simp [hmn] at hrm
+            | some nm =>
+              simp only [hmn] at hrm
+              cases hct : checkTypes methodOmit d (.obj mk) with
+              | error e => simp [hct] at hrm
+              | ok u =>
+                simp only [hct] at hrm
+                exact ⟨key, _, mk, df, d, rm, hko, hpool, rfl, hdf, hld, hct, hrm, hlk⟩
+      | _ => simp [installMethod] at hrm
+
+/-- the defaults file of a method is chosen by its own deployment type (or its own
+`default_parameters` key), never by another file -/
+theorem method_defaults_by_deployment_type (mk : KV)
+    (hno : mk.lookup "default_parameters" = none) :
+    (mk.lookup "deployment_type" = some (.str "mobile") →
+        methodDefFile mk = .ok (.str mobileDefFile)) ∧
+    (mk.lookup "deployment_type" = some (.str "stationary") →
+        methodDefFile mk = .ok (.str stationaryDefFile)) ∧
+    (∀ dt, mk.lookup "deployment_type" = some dt → dt.isStr "mobile" = false →
+        dt.isStr "stationary" = false → methodDefFile mk = .error .exit) := by
+  refine ⟨?_, ?_, ?_⟩
+  · intro h; simp [methodDefFile, hno, h, J.isStr]
+  · intro h; simp [methodDefFile, hno, h, J.isStr]
+  · intro dt h h1 h2; simp [methodDefFile, hno, h, h1, h2]
+
+/-- a label without a method file makes the installation of the program stop with
+`missing_method` -/
+theorem missing_method_rejected {defs pool pk : KV} {ls : JL}
+    (hl : pk.lookup "method_labels" = some (.list ls))
+    (hmiss : ∃ l, l ∈ ls.toList ∧ ∀ key, keyOf l = some key → pool.lookup key = none) :
+    installProgram defs pool (.obj pk) = .error .missing_method := by
+  simp [installProgram, hl, iterLabels, installLabels_missing pool ls.toList .nil hmiss]
+
+/-- `no_placeholder_left`: whatever the intake returns holds no type placeholder, at any depth -/
+theorem no_placeholder_left {defs : KV} {files : List KV} {r : J}
+    (h : intake defs files = .ok r) : noPh r = true := by
+  simp only [intake] at h
+  split at h
+  · split at h
+    · cases h
+    · split at h
+      · cases h
+      · rename_i sim _
+        simp only [removePlaceholders] at h
+        split at h
+        · cases h
+          simpa [noPh] using rpKvs_noPh sim
+        · cases h
+  · cases h
+
+/-- placeholder removal touches nothing else: a value without placeholders is returned as it is -/
+theorem placeholders_only (kvs : KV) (h : noPhK kvs = true) :
+    removePlaceholders (.obj kvs) = .obj kvs := by
+  simp [removePlaceholders, rpKvs_id kvs h]
+
+/-- `reserved_names_rejected`: in whatever the intake returns no program name and no method label
+is one of none / null / nan (in any letter case) -/
+theorem reserved_names_rejected {defs : KV} {files : List KV} {r : J}
+    (h : intake defs files = .ok r) :
+    ∃ sim progs, r = .obj sim ∧ sim.lookup "programs" = some (.obj progs) ∧
+      ∀ name prog, progs.lookup name = some prog →
+        isReserved name = false ∧
+        ∃ pk v ls, prog = .obj pk ∧ pk.lookup "method_labels" = some v ∧
+          iterLabels v = .ok ls ∧ ∀ s, J.str s ∈ ls → isReserved s = false := by
+  simp only [intake] at h
+  split at h
+  · split at h
+    · cases h
+    · split at h
+      · cases h
+      · rename_i sim _
+        simp only [removePlaceholders] at h
+        cases hv : validateNames (rpKvs sim) with
+        | error e => simp [hv] at h
+        | ok u =>
+          simp only [hv] at h
+          cases h
+          simp only [validateNames] at hv
+          split at hv
+          · rename_i progs hp
+            exact ⟨rpKvs sim, progs, rfl, hp, fun name prog hl => namesOk_lookup progs name prog hv hl⟩
+          · cases hv
+          · cases hv
+  · cases h
+
+/-- the reserved-name test itself -/
+theorem reserved_table :
+    isReserved "none" = true ∧ isReserved "None" = true ∧ isReserved "NULL" = true ∧
+    isReserved "NaN" = true ∧ isReserved "nan" = true ∧ isReserved "P_none" = false ∧
+    isReserved "nul" = false ∧ isReserved "" = false := by
+  decide
+
+/-- wiring of the virtual-world / outputs branches: the installed section is
+`retainUpdate defaults file`, the file having passed `check_types` with no omit keys -/
+theorem section_checked_and_merged {defs : KV} {defFile slot : String} {st st' : St} {file : KV}
+    (h : routeSection defs defFile slot st file = .ok st') :
+    ∃ d r, loadDef defs (match file.lookup "default_parameters" with
+                          | some v => v
+                          | none => .str defFile) = .ok d ∧
+      checkTypes [] d (.obj file) = .ok () ∧ retainUpdate d (.obj file) = .ok r ∧
+      st'.sim = st.sim.setKey slot r ∧ st'.programs = st.programs ∧ st'.pool = st.pool := by
+  simp only [routeSection] at h
+  split at h
+  · cases h
+  · rename_i d hd
+    split at h
+    · cases h
+    · rename_i hc
+      split at h
+      · cases h
+      · rename_i r hr
+        cases h
+        exact ⟨d, r, hd, by cases ‹Unit›; exact hc, hr, rfl, rfl, rfl⟩
+
 end LdarModel.Tree
